@@ -1,3 +1,5 @@
+import math
+
 from ..casts import get_caster
 from ..types import Row, StructType
 from .expressions import BinaryOperation, Expression, NullSafeBinaryOperation, TypeSafeBinaryOperation, UnaryExpression
@@ -48,7 +50,15 @@ class Divide(NullSafeBinaryOperation):
 
 class Mod(NullSafeBinaryOperation):
     def unsafe_operation(self, value1, value2):
-        return value1 % value2
+        # SQL remainder: null for a zero divisor (like "/"), and the
+        # remainder of the division truncated toward zero, which has the
+        # sign of the dividend (Python's % has the sign of the divisor)
+        if value2 == 0:
+            return None
+        if isinstance(value1, float) or isinstance(value2, float):
+            return math.fmod(value1, value2)
+        remainder = abs(value1) % abs(value2)
+        return -remainder if value1 < 0 else remainder
 
     def __str__(self):
         return f"({self.arg1} % {self.arg2})"
